@@ -493,7 +493,7 @@ def small_family(rep, rng, ref, thorough, only=None):
         if only is not None and i != only:
             continue
         want = {r: ref[json.dumps(["small", i, r])] for r in ("N", "M")}
-        for order in (orders if thorough else [orders[i % 4], orders[(i + 1) % 4]]):
+        for order in (orders if thorough else [orders[(i + (rng.randint(0, 3) if rng is not None else 0)) % 4]]):
             N, M = small_build(spec, "N"), small_build(spec, "M")
             if order == "N-then-M":
                 got = {"N": small_observe(N), "M": small_observe(M)}
@@ -529,6 +529,146 @@ def small_family(rep, rng, ref, thorough, only=None):
             if bad is None and cont is not None and cont != [2, False, False, 2, 0] and spec[0] != "leaf":
                 bad = {"what": "two distinct expression objects of equal structure collide as keys of a set / dict / list search",
                        "small": [i, list(spec)], "order": order, "got": cont, "fresh": [2, False, False, 2, 0]}
+            if bad:
+                rep.oracle_failures.append(bad)
+
+
+# ----------------------------------------------------------------------------- bare-leaf constraints and slack variables
+
+
+def slack_specs(thorough):
+    """a constraint whose expression is (or normalises to) a bare variable: leaf kind × sense × right-hand side × where the
+    variable occurs first × linear / quadratic objective"""
+    rhss = ["0", "0.0", "Constant0", "1.5"] + (["-0.0", "np0", "False"] if thorough else [])
+    return [(leaf, sense, rhs, place, obj)
+            for leaf in ("scalar", "vecelem")
+            for sense in (">=", "<=", "==")
+            for rhs in rhss
+            for place in ("slack-first", "slack-only", "in-objective", "after-use")
+            for obj in ("lin", "quad")]
+
+
+def slack_build(spec, role: str):
+    """model of `role` over the same names x, s (or v[1]): own objects, own bounds / domains"""
+    from optyx import Variable, VectorVariable, Problem
+    from optyx.core.expressions import Constant
+
+    leaf, sense, rhs, place, objk = spec
+    x = Variable("x", lb=0.0, ub=4.0)
+    # both ranges contain 0 and 1.5, so every bare constraint is feasible in both models (no slow infeasibility retries)
+    if role == "N":
+        lb, ub, dom = -2.0, 2.0, "continuous"
+    else:
+        lb, ub, dom = -1.0, 3.0, ("integer" if sense == "==" else "continuous")
+    if leaf == "scalar":
+        s_ = Variable("s", lb=lb, ub=ub, domain=dom)
+        own = [x, s_]
+    else:
+        v = VectorVariable("v", 3, lb=lb, ub=ub)
+        s_ = v[1]
+        own = [x, s_]
+    r = {"0": 0, "0.0": 0.0, "Constant0": Constant(0.0), "1.5": 1.5, "-0.0": -0.0, "np0": np.float64(0.0), "False": False}[rhs]
+    bare = {">=": lambda: s_ >= r, "<=": lambda: s_ <= r, "==": lambda: s_.eq(r)}[sense]()
+    use = x + s_ >= 1.0 if role == "N" else x + s_ >= 2.0
+    obj = (x * 2.0 + 1.0) if objk == "lin" else (x - 3.0) ** 2
+    if place == "in-objective":
+        obj = obj + (0.5 * s_ if objk == "lin" else (s_ - 1.0) ** 2)
+    prob = Problem()
+    prob.minimize(obj)
+    if place == "slack-first":
+        prob.subject_to(bare); prob.subject_to(use)
+    elif place == "after-use":
+        prob.subject_to(use); prob.subject_to(bare)
+    else:
+        prob.subject_to(bare)
+    return {"prob": prob, "own": own, "x": x, "s": s_, "spec": spec, "role": role}
+
+
+def slack_observe(M) -> dict:
+    """what the problem believes its variables are — objects, bounds, domains — through every channel"""
+    from optyx.analysis import LinearProgramExtractor
+    from optyx.solvers.scipy_solver import _compute_initial_point
+
+    prob = M["prob"]
+    out = {}
+    with warnings.catch_warnings(), np.errstate(all="ignore"):
+        warnings.simplefilter("ignore")
+        vs = prob.variables
+        out["names"] = [v.name for v in vs]
+        # independent of any reference: every variable the problem lists is one of the objects this model was built from
+        out["own_objects"] = [any(v is o for o in M["own"]) for v in vs]
+        out["bounds_via_objects"] = [[_f(v.lb) if v.lb is not None else None, _f(v.ub) if v.ub is not None else None, v.domain]
+                                     for v in vs]
+        out["get_bounds"] = [[None if a is None else _f(a), None if b is None else _f(b)] for a, b in prob.get_bounds()]
+        out["n_variables"] = prob.n_variables
+        out["x0"] = _arr(_compute_initial_point(vs))
+        lin = prob._is_linear_problem()
+        out["linear"] = bool(lin)
+        if lin:
+            d = LinearProgramExtractor().extract(prob)
+            out["lp"] = [_arr(d.c), None if d.A_ub is None else _arr(d.A_ub), None if d.b_ub is None else _arr(d.b_ub),
+                         None if d.A_eq is None else _arr(d.A_eq), None if d.b_eq is None else _arr(d.b_eq),
+                         [[None if t is None else _f(t) for t in bd] for bd in d.bounds], list(d.variables)]
+        out["solve"] = []
+        for m in ("auto", "SLSQP"):
+            try:
+                sol = prob.solve(method=m)
+                out["solve"].append([m, sol.status.name, {k: round(float(v), 6) for k, v in sorted((sol.values or {}).items())},
+                                     None if sol.objective_value is None else round(float(sol.objective_value), 6)])
+            except Exception as ex:  # noqa: BLE001
+                out["solve"].append([m, "raise:" + type(ex).__name__])
+        sc = prob._solver_cache
+        out["nlp_bounds"] = None if sc is None else [[_f(a), _f(b)] for a, b in sc["bounds"]]
+        out["strict"] = []
+        for m in ("auto", "SLSQP"):
+            try:
+                prob.solve(method=m, strict=True)
+                out["strict"].append("ok")
+            except Exception as ex:  # noqa: BLE001
+                out["strict"].append(type(ex).__name__)
+    return out
+
+
+def slack_family(rep, rng, ref, thorough, only=None):
+    specs = slack_specs(thorough)
+    orders = ["N-then-M", "build-both-observe-M-first", "M-then-N", "N-variables-only-then-M"]
+    for i, spec in enumerate(specs):
+        if only is not None and i != only:
+            continue
+        want = {r: ref[json.dumps(["slack", i, r, bool(thorough)])] for r in ("N", "M")}
+        for order in (orders if thorough else [orders[i % 4], orders[(i + 2) % 4]]):
+            if order == "N-then-M":
+                got = {"N": slack_observe(slack_build(spec, "N"))}
+                got["M"] = slack_observe(slack_build(spec, "M"))
+            elif order == "build-both-observe-M-first":
+                N, M = slack_build(spec, "N"), slack_build(spec, "M")
+                got = {"M": slack_observe(M)}
+                got["N"] = slack_observe(N)
+            elif order == "M-then-N":
+                got = {"M": slack_observe(slack_build(spec, "M"))}
+                got["N"] = slack_observe(slack_build(spec, "N"))
+            else:
+                N = slack_build(spec, "N")
+                N["prob"].n_variables; N["prob"].summary()
+                got = {"M": slack_observe(slack_build(spec, "M"))}
+            rep.evaluations += 1
+            rep.nontrivial.add(("slack", i, order))
+            key = f"slack:{spec[0]}:{spec[3]}"
+            rep.histogram[key] = rep.histogram.get(key, 0) + 1
+            bad = None
+            for r, g in got.items():
+                if not all(g["own_objects"]):
+                    bad = {"what": "Problem.variables of a model holds a Variable object that belongs to another model",
+                           "slack": [i, list(spec), bool(thorough)], "order": order, "role": r, "where": "/own_objects",
+                           "got": str(list(zip(g["names"], g["own_objects"], g["bounds_via_objects"])))[:300], "fresh": "all own"}
+                    break
+                d = same(g, want[r])
+                if d:
+                    k0 = d.split("/")[1].split("[")[0]
+                    bad = {"what": "a model with a bare-variable constraint differs from a fresh process after a same-named model",
+                           "slack": [i, list(spec), bool(thorough)], "order": order, "role": r, "where": d,
+                           "got": str(g.get(k0))[:300], "fresh": str(want[r].get(k0))[:300]}
+                    break
             if bad:
                 rep.oracle_failures.append(bad)
 
@@ -838,7 +978,7 @@ def reference(seeds: list[int], own_process_each: bool = False) -> dict:
         return {}
     env = dict(os.environ)
     env["PYTHONDONTWRITEBYTECODE"] = "1"
-    chunks = [[s] for s in seeds] if own_process_each else [seeds[i::6] for i in range(6) if seeds[i::6]]
+    chunks = [[s] for s in seeds] if own_process_each else [seeds[i::8] for i in range(8) if seeds[i::8]]
 
     def one(chunk):
         p = subprocess.run([sys.executable, os.path.abspath(__file__), "--ref"], input=json.dumps(chunk),
@@ -860,7 +1000,9 @@ def _ref_main():
     out = {}
     for s in seeds:
         clear_lru()
-        if isinstance(s, list) and s[0] == "small":
+        if isinstance(s, list) and s[0] == "slack":
+            out[json.dumps(s)] = slack_observe(slack_build(slack_specs(s[3])[s[1]], s[2]))
+        elif isinstance(s, list) and s[0] == "small":
             out[json.dumps(s)] = small_observe(small_build(small_specs()[s[1]], s[2]))
         elif isinstance(s, list) and s[0] == "probe":
             out[json.dumps(s)] = probe_observe(probe_build(s[1], s[2], "s"), full=probe_full(s[1], s[2]))
@@ -978,7 +1120,12 @@ def run(ctx) -> core.Report:
         rep.corr_mismatches.append({"fact": k, "impl": False, "model": True})
     lru_correspondence(rng, rep, 600 if thorough else 200)
 
-    ref = reference(seeds)
+    # all fresh-process references of this run in one batch of subprocesses (each item is observed after cache_clear)
+    probe_items = [["probe", k, n] for n in PROBE_DIMS for k in PROBE_KINDS]
+    small_items = [["small", i, r] for i in range(len(small_specs())) for r in ("N", "M")]
+    slack_items = [["slack", i, r, bool(thorough)] for i in range(len(slack_specs(thorough))) for r in ("N", "M")]
+    ref = reference(seeds + probe_items + small_items + slack_items)
+    probe_ref = small_ref = slack_ref = ref
     ref_own = reference(own, own_process_each=True)
     for s in own:
         d = same(ref_own[s], ref[s])
@@ -1030,15 +1177,14 @@ def run(ctx) -> core.Report:
             churn(64, s)
         del keep
         # artefact probes: prefix × target pairs over all artefact kinds, same / different dimension and names
-        items = [["probe", k, n] for n in PROBE_DIMS for k in PROBE_KINDS]
-        probe_ref = reference(items)
         clear_lru()
         probe_pairs(rep, rng, probe_ref, thorough)
         # small nodes over bare same-named leaves, two models interleaved
-        n_small = len(small_specs())
-        small_ref = reference([["small", i, r] for i in range(n_small) for r in ("N", "M")])
         clear_lru()
         small_family(rep, rng, small_ref, thorough)
+        # bare-leaf constraints / slack variables in two same-named models
+        clear_lru()
+        slack_family(rep, rng, slack_ref, thorough)
         # prefixes that end in exceptions: interpreter-wide state untouched, later observations unaffected
         before = interpreter_state()
         outcomes = faulting_prefix()
@@ -1101,6 +1247,17 @@ def search(ctx, rep):
 
 def replay(payload) -> bool:
     f = payload["failure"]
+    if "slack" in f:
+        i, th = int(f["slack"][0]), bool(f["slack"][2])
+        ref = reference([["slack", i, r, th] for r in ("N", "M")], own_process_each=True)
+        rep = core.Report()
+        clear_lru()
+        try:
+            slack_family(rep, None, ref, th, only=i)
+        finally:
+            clear_lru()
+        print("failures:", rep.oracle_failures[:1])
+        return not rep.oracle_failures
     if "small" in f:
         i = int(f["small"][0])
         ref = reference([["small", i, r] for r in ("N", "M")], own_process_each=True)
